@@ -51,6 +51,30 @@ func (s *ExpressionListRewriter) hasNegationAncestor() bool {
 	return false
 }
 
+// isConjunctiveOperand reports whether the node being exited must hold for the whole where clause to hold: every
+// ancestor expression list up to the where clause is a conjunction (or has a single operand). Only such an operand
+// may be moved out of the where clause without changing what the query asks.
+func (s *ExpressionListRewriter) isConjunctiveOperand() bool {
+	for idx := len(s.descentStack) - 1; idx >= 0; idx-- {
+		switch typedAncestor := s.descentStack[idx].(type) {
+		case *cypher.Where:
+			return true
+
+		case *cypher.Disjunction:
+			if typedAncestor.Len() > 1 {
+				return false
+			}
+
+		case *cypher.ExclusiveDisjunction:
+			if typedAncestor.Len() > 1 {
+				return false
+			}
+		}
+	}
+
+	return true
+}
+
 func (s *ExpressionListRewriter) popExpression() {
 	s.descentStack = s.descentStack[:len(s.descentStack)-1]
 }
@@ -131,7 +155,7 @@ func (s *ExpressionListRewriter) Exit(node cypher.SyntaxNode) {
 		if variable, typeOK := typedNode.Reference.(*cypher.Variable); !typeOK {
 			s.SetErrorf("expected a variable as the reference for a kind matcher but received: %T", node)
 		} else if variable.Symbol == query.EdgeSymbol {
-			if s.hasNegationAncestor() {
+			if s.hasNegationAncestor() || !s.isConjunctiveOperand() {
 				return
 			}
 
@@ -143,8 +167,14 @@ func (s *ExpressionListRewriter) Exit(node cypher.SyntaxNode) {
 				s.SetErrorf("expected an expression list AST node")
 			} else {
 				firstRelationshipPattern := lastMatch.FirstRelationshipPattern()
-				firstRelationshipPattern.Kinds = append(firstRelationshipPattern.Kinds, typedNode.Kinds...)
 
+				// Kinds in a relationship pattern are alternatives. A second kind matcher is a further constraint and
+				// not a further alternative, so it has to stay in the where clause
+				if len(firstRelationshipPattern.Kinds) > 0 {
+					return
+				}
+
+				firstRelationshipPattern.Kinds = append(firstRelationshipPattern.Kinds, typedNode.Kinds...)
 				ancestorExpressionList.Remove(node)
 			}
 		}
